@@ -231,6 +231,15 @@ func runProperty(root, repo string, pc *PropConfig, tier string, seed int, overl
 		for _, or := range fr.Obls {
 			seen[or.Name] = true
 			claimed := expected[or.Name]
+			if !claimed && labelledKind(or.Name) {
+				// a further instance (#n) of a claimed labelled obligation, e.g. a second back edge of the same loop
+				// after the code changed, stands under the same claim
+				if i := strings.LastIndex(or.Name, "#"); i > strings.Index(or.Name, "#") {
+					if _, err := strconv.Atoi(or.Name[i+1:]); err == nil && expected[or.Name[:i]] {
+						claimed = true
+					}
+				}
+			}
 			or.Claimed = claimed
 			ro.solverTime += or.TimeS
 			var kf *KnownFinding
